@@ -471,12 +471,32 @@ fn rt_case() -> BoxedStrategy<RtCase> {
         let (r, b) = (if l + w1 + r == 0 { 1 } else { r }, if t + h1 + b == 0 { 1 } else { b });
         (l + w1 + r, t + h1 + b, vec![[l, t, l + w1, t + h1], [l2, t2, l2 + w, t2 + h]], via)
     });
-    prop_oneof![3 => owned.boxed(), 4 => view.boxed(), 2 => nested.boxed()]
+    // long, thin images (a row or column of thousands of pixels: block sizes such as 4096 px or 12288 bytes are crossed),
+    // owned or a window of a slightly larger buffer; their pixels are filled from a seed (see below)
+    let long_side = prop_oneof![3 => proptest::sample::select(vec![4095u32, 4096, 4097, 4100, 8191, 8192, 8193, 12288, 12289]), 2 => 4000u32..=9000, 1 => 16000u32..=17000];
+    let long = (long_side, 1u32..=3, any::<bool>(), 0u32..=2, 0u32..=2, 0u8..4).prop_map(|(l, s, transpose, ma, mb, via)| {
+        let (w, h) = if transpose { (s, l) } else { (l, s) };
+        if ma + mb == 0 {
+            (w, h, vec![], via)
+        } else {
+            (w + ma + mb, h + ma + mb, vec![[ma, mb, ma + w, mb + h]], via)
+        }
+    });
+    prop_oneof![30 => owned.boxed(), 40 => view.boxed(), 20 => nested.boxed(), 1 => long.boxed()]
         .prop_flat_map(|(bw, bh, rects, via)| {
             let n = (3 * bw * bh) as usize;
             let form = || prop_oneof![3 => Just(0u8), 2 => Just(3u8), 3 => 0u8..16];
             let sink = prop_oneof![4 => Just(0u8), 2 => 1u8..=4, 1 => (1u8..=7).prop_map(|k| k | 0x80), 1 => (5u8..=40)];
-            (Just((bw, bh, rects, via)), pvec(adv_byte(), n), pvec([form(), form()], 2), sink)
+            // large images: one generated byte pattern of 64 bytes, repeated with a running counter mixed in
+            let px = if n > 8192 {
+                (pvec(adv_byte(), 64), any::<u64>()).prop_map(move |(pat, seed)| {
+                    let mut sm = Sm(seed);
+                    (0..n).map(|i| if i % 7 == 3 { (sm.next() >> 56) as u8 } else { pat[i % 64] }).collect::<Vec<u8>>()
+                }).boxed()
+            } else {
+                pvec(adv_byte(), n).boxed()
+            };
+            (Just((bw, bh, rects, via)), px, pvec([form(), form()], 2), sink)
         })
         .prop_map(|((bw, bh, rects, via), px, forms, sink)| RtCase { bw, bh, px: Hex(px), rects, via, forms, sink })
         .boxed()
@@ -544,7 +564,7 @@ fn decode_both(file: &[u8], what: &str) -> Result<Result<((u32, u32), Vec<[u8; 3
 pub fn check_roundtrip(c: &RtCase, obs: &mut Obs) -> Check {
     // ---- model of the view: plain index arithmetic on the byte array
     let (bw, bh) = (c.bw, c.bh);
-    ensure!(c.px.0.len() == (3 * bw * bh) as usize && bw <= 64 && bh <= 64, "bad-case", "pixel array does not match the backing dims");
+    ensure!(c.px.0.len() == (3 * bw * bh) as usize && bw as u64 * bh as u64 <= 200_000, "bad-case", "pixel array does not match the backing dims");
     ensure!(bw > 0 || bh == 0, "bad-case", "an owned (0, h>0) buffer cannot be constructed");
     ensure!(c.rects.len() <= 2, "bad-case", "at most two nesting levels");
     let (mut x0, mut y0, mut w, mut h) = (0u32, 0u32, bw, bh);
@@ -666,6 +686,9 @@ pub fn check_roundtrip(c: &RtCase, obs: &mut Obs) -> Check {
         _ => "image:nested-view",
     });
     obs.class(dims_class(w, h));
+    if w.max(h) > 4000 {
+        obs.class("dims:a side of more than 4000 pixels");
+    }
     obs.class(fbc);
     if strided {
         obs.class("image:strided(non-contiguous)");
